@@ -2,6 +2,7 @@ package sx
 
 import (
 	"fmt"
+	"go/types"
 	"math/big"
 	"regexp"
 	"sort"
@@ -50,9 +51,16 @@ type Tmpl struct {
 	Exps   []int    // exponent set for float64 numbers
 	// NumReps lists the admissible numeric representations (nil = float64 only).
 	NumReps []int
-	// ContainerReps enables typed containers / wrappers (see reps.go).
+	// ContainerReps enables typed containers, Go arrays, named string / key types (see reps.go).
 	ContainerReps bool
-	// IntOnly restricts numbers to integers (used by some kernels).
+	// Wrappers enables one pointer layer around values held in interface slots and at top level.
+	Wrappers bool
+	// StrT / KeyT are the named string types used for the named-string and named-key representations.
+	StrT, KeyT types.Type
+	// IntAbsLimit, if set, bounds |value| of integer-kind and json.Number representations.
+	IntAbsLimit *big.Int
+	// JNIntegersOnly restricts json.Number representations to integer texts (JK = 0).
+	JNIntegersOnly bool
 }
 
 var DefaultExps = []int{-1074, -30, -4, -3, -2, -1, 0, 1, 2, 3, 4, 30, 60, 970}
@@ -72,7 +80,10 @@ type Node struct {
 	IVal *smt.Term // Int: value when the representation is an integer kind
 	JN   *smt.Term // Int: numerator n of a json.Number n/10^JK
 	JK   *smt.Term // Int in [0,3]
-	Rep  *smt.Term // Int: representation selector (meaning depends on tag); const 0 = canonical
+	Rep  *smt.Term // Int: numeric representation selector; const 0 = float64
+	CRep *smt.Term // Int: string/array/object typing selector; const 0 = canonical
+	Wrap *smt.Term // Int: pointer layers around the value (0 or 1); const 0 = none
+	Parent *Node
 	Str  *smt.Term // Str
 	Len  *smt.Term // Int in [0, MaxLen] (0 at the depth limit)
 
@@ -138,11 +149,24 @@ func (m *Machine) newNode(name string, tm *Tmpl, depth int) *Node {
 		}
 		n.Present = append(n.Present, p)
 	}
-	if len(tm.NumReps) > 0 || tm.ContainerReps {
+	if len(tm.NumReps) > 0 {
 		n.Rep = v("rep", smt.SInt)
 		m.repInvariants(n)
 	} else {
 		n.Rep = c.Int(0)
+	}
+	if tm.ContainerReps {
+		n.CRep = v("crep", smt.SInt)
+		m.crepInvariants(n)
+	} else {
+		n.CRep = c.Int(0)
+	}
+	if tm.Wrappers {
+		n.Wrap = v("wrap", smt.SInt)
+		m.AddBase(c.InRange(n.Wrap, big.NewInt(0), big.NewInt(1)))
+		m.DeclareRange(n.Wrap, big.NewInt(0), big.NewInt(1))
+	} else {
+		n.Wrap = c.Int(0)
 	}
 	return n
 }
@@ -154,7 +178,11 @@ func (n *Node) Elem(i int) *Node {
 	}
 	if n.elems[i] == nil {
 		n.elems[i] = n.m.newNode(fmt.Sprintf("%s[%d]", n.Name, i), n.Tm, n.Depth+1)
-		n.m.childRepInvariants(n, n.elems[i])
+		n.elems[i].Parent = n
+		if i > 0 {
+			n.Elem(0)
+		}
+		n.m.childRepInvariants(n, n.elems[i], n.elems[0], TagArray)
 	}
 	return n.elems[i]
 }
@@ -166,7 +194,11 @@ func (n *Node) Val(k int) *Node {
 	}
 	if n.vals[k] == nil {
 		n.vals[k] = n.m.newNode(fmt.Sprintf("%s{%s}", n.Name, n.Tm.Keys[k]), n.Tm, n.Depth+1)
-		n.m.childRepInvariants(n, n.vals[k])
+		n.vals[k].Parent = n
+		if k > 0 {
+			n.Val(0)
+		}
+		n.m.childRepInvariants(n, n.vals[k], n.vals[0], TagObject)
 	}
 	return n.vals[k]
 }
